@@ -27,7 +27,7 @@ CHECKS = {
 
 PURE = "Modelled, not verified: Rust slice-index semantics, hex::decode, integer/char formatting and parsing of std. "
 CHECKS.update({
- "C15": ("proof", "Props.C15: for every well-formed Hex (both public variants, arbitrary padding) index/range (six kinds)/byte_at/tail equal the Rust slice semantics on the byte string, hence panic exactly when the slice would (index_eq … rangeToIncl_eq, tail_eq, representation_independent); fromStr_print; the i64/f64 conversions on the 64-bit pattern are bit-exact inverses that fail for any length other than 8. Tie: exhaustive small-scope run of the real accessors, each line carrying the real byte slice's answer, compared with the model and judged by monC15.",
+ "C15": ("proof", "Props.C15: for every well-formed Hex (both public variants, arbitrary padding) index/range (six kinds)/byte_at/tail equal the Rust slice semantics on the byte string, hence panic exactly when the slice would (index_eq … rangeToIncl_eq, tail_eq, representation_independent); fromStr_print; the i64/f64 conversions on the 64-bit pattern are bit-exact inverses that fail for any length other than 8; beyond the statement, the rest of Hex's conversions are modelled and compared too: From<i8/i16/i32/f32> (ofBitsW_length, val_ofBitsW), From<bool>/to_bool (toBool_ofBool, toBool_panics_iff), from_str_bytes/to_utf8 (utf8_text_roundtrip, utf8_exact: to_utf8 succeeds exactly on encodings of texts). Tie: exhaustive small-scope run of the real accessors, each line carrying the real byte slice's answer, compared with the model and judged by monC15.",
          "algebraic laws proved for all inputs in Lean 4; exhaustive small-scope differential correspondence", "7 C15"),
  "C16": ("proof", "KNOWN FINDING D9: the law is proved for the repaired variant (concatRepaired_law), proved for the code as found outside the defect class (concat_partial), the defect is characterised exactly (concat_defect_shape) and the full law refuted by a kernel-checked witness (concat_law_fails). The check matches the code against the as-found model, falling back to the repaired model; law failures inside the recorded class print KNOWN-FINDING, any other failure is a VIOLATION.",
          "proof of the partial law + proved negation; model-variant correspondence", "7 C16"),
